@@ -134,9 +134,14 @@ def add_schema_invariants(draw: Any, spec: Spec, opts: Opts, used: set) -> None:
                 inv.tags.get("form") == "len" for k in [t.name] + spec.cp_ancestors(t.name) for inv in spec.cp(k).invs)
             if cp_len:
                 pr = max(pr, 0.8)
+            tighten = False
+            prim = _prim(spec, t)
+            if p.name not in own and prim == "str" and len(pfns) >= 2 and any(
+                    inv.tags.get("prop") == p.name and inv.tags.get("form") == "pattern"
+                    for k in spec.ancestors(c.name) for inv in spec.cls(k).invs):
+                pr = max(pr, 0.85)
             if not g.chance(pr):
                 continue
-            prim = _prim(spec, t)
             forms = []
             if prim in ("str", "bytearray") or t.kind == "list":
                 forms += ["len", "len", "len", "len_near"]
@@ -158,7 +163,8 @@ def add_schema_invariants(draw: Any, spec: Spec, opts: Opts, used: set) -> None:
                     for k in spec.ancestors(c.name) for inv in spec.cls(k).invs):
                 # an ancestor already constrains the property by a pattern: several further patterns here
                 # exercise the tightening of pattern lists (the part of the child's list the parent lacks)
-                forms += ["pattern2"] * 3 + (["pattern3"] * 3 if len(pfns) >= 3 else [])
+                forms = ["pattern2"] * 3 + (["pattern3"] * 6 if len(pfns) >= 3 else []) + forms[:3]
+                tighten = True
             if not forms:
                 continue
             for _ in range(draw(st.integers(1, 2))):
